@@ -560,9 +560,17 @@ impl Ord for YEdge {
         if !x.is_finite() {
             return Ordering::Equal;
         }
-        self.y_at(x, true)
-            .total_cmp(&other.y_at(x, true))
-            .then(self.tie_grad().total_cmp(&other.tie_grad()))
+        let by_y = self.y_at(x, true).total_cmp(&other.y_at(x, true));
+        if by_y != Ordering::Equal {
+            return by_y;
+        }
+        // Two edges meeting at their common right end point keep the order they had to the left of it
+        // (steeper below) until that point is handled; this is the order they are stored in, and the
+        // point may still be pending when an earlier event at the same abscissa has advanced x.
+        if self.rpt == other.rpt && self.rpt.x() == x {
+            return other.grad().total_cmp(&self.grad());
+        }
+        self.tie_grad().total_cmp(&other.tie_grad())
     }
 }
 
